@@ -35,6 +35,9 @@ def collect():
         patch = os.path.join(d, "patch.diff")
         if os.path.exists(meta) and os.path.exists(patch):
             m = json.load(open(meta))
+            if m.get("skip_in_selftest"):
+                # kept for the record with the reason in meta.json "verdict" (DESIGN 10.4): not expected to be detected
+                continue
             props = m.get("detected_by") or m.get("property")
             if isinstance(props, str):
                 props = [props]
